@@ -52,6 +52,7 @@ def engines : List (String × Engine) := [
   ("det", LA.WC.engine),
   ("xtr", LA.Xtr.engine),
   ("xtrtar", LA.Xtr.engine),
+  ("xtrdeep", LA.Xtr.engine),
   ("pathclean", LA.Xtr.enginePath),
   ("rdd", LA.RD.engine),
   ("flt", LA.Flt.engine),
